@@ -245,6 +245,8 @@ def describe(item):
         return dict(family='slotattrs', slat=item[1], opcode=['ATTR_SET', 'ATTR_ADD', 'PUSH_SLOT_ATTR', 'IATTR_SET', 'PUSH_ISLOT_ATTR', 'IATTR_ADD'][item[2]], subindex=item[3], just_levels=item[4], num_user=item[5], where=item[6])
     if item[0] == 'growth':
         return dict(family='growth', inserts_per_glyph=item[1], late_pass=['none', 'insert', 'delete'][item[2]], second_substitution_pass=item[3], ijust_equals_ipos=item[4])
+    if item[0] == 'classmap':
+        return dict(family='classmap', classes=[CLASS_CATALOG[c] for c in item[1]], nlinear=item[2], opcode=('PUT_GLYPH' if item[4] < 0 else 'PUT_SUBS') + ('' if item[3] else '_8BIT_OBS'), in_class=item[4], out_class=item[5])
     if item[0] == 'manyrules':
         return dict(family='manyrules', rules_per_length=item[1], max_rule_length=item[2], long_first=item[3], substitutes=item[4])
     R = twopass_rules()
@@ -260,6 +262,7 @@ def build(item):
     if item[0] == 'manyrules': return font_for_manyrules(item[1], item[2], item[3], item[4])
     if item[0] == 'slotattr': return font_for_slotattr(*item[1:])
     if item[0] == 'growth': return font_for_growth(item[1], item[2], item[3], item[4])
+    if item[0] == 'classmap': return font_for_classmap(*item[1:])
     return font_for_twopass(item[1], item[2], 0, 0, item[3])
 
 
@@ -323,7 +326,32 @@ def enum_deep(tier):
         for atoms in itertools.product(spos, repeat=5): yield ('action', (2, 0, 1, 'pos'), atoms, 0)
 
 
-ENUMS = dict(slotattrs=enum_slotattrs, deep=enum_deep, action=enum_action, constraint=enum_constraint, twopass=enum_twopass, manyrules=enum_manyrules, growth=enum_growth)
+CLASS_CATALOG = [[], [5], [5, 6], [2, 3], [2, 3, 4]]          # empty, [x], [x y], [a b], [a b c]
+
+
+def enum_classmap(tier):
+    """Class-map layouts: every class map of 1..2 (thorough 1..3) classes drawn from a 5-entry catalog (empty, 1..3 members), every split into linear
+    and lookup classes, crossed with PUT_GLYPH / PUT_SUBS (8-bit and 16-bit forms) over every class index incl. one past the map: an index equal to the
+    size of an output class, an empty class, an output class that ends the class data, input classes of the linear kind."""
+    for nc in ((1, 2, 3) if tier == 'thorough' else (1, 2)):
+        for cls in itertools.product(range(len(CLASS_CATALOG)), repeat=nc):
+            for nlin in range(nc + 1):
+                for wide in (0, 1):
+                    for out in range(nc + 1):
+                        yield ('classmap', cls, nlin, wide, -1, out)
+                        for inp in range(nc + 1): yield ('classmap', cls, nlin, wide, inp, out)
+
+
+def font_for_classmap(cls, nlin, wide, inp, out):
+    F = base_font(); abc = {2, 3, 4}
+    if inp < 0: code = A('PUT_GLYPH', out >> 8, out & 0xFF) if wide else A('PUT_GLYPH8', out)
+    else: code = A('PUT_SUBS', 0, inp >> 8, inp & 0xFF, out >> 8, out & 0xFF) if wide else A('PUT_SUBS8', 0, inp, out)
+    rule = Rule(0, [abc], code + A('NEXT', 'RET_ZERO'))
+    F['silf'] = dict(version=3, passes=[dict(maxloop=2, rules=[rule]), fixed_attach_pass()], classes=[CLASS_CATALOG[c] for c in cls], nlinear=nlin, iSubst=0, iPos=1, numUser=1, maxPre=1, maxPost=3)
+    return F
+
+
+ENUMS = dict(classmap=enum_classmap, slotattrs=enum_slotattrs, deep=enum_deep, action=enum_action, constraint=enum_constraint, twopass=enum_twopass, manyrules=enum_manyrules, growth=enum_growth)
 
 
 def main():
